@@ -147,6 +147,22 @@ class Tracer:
                     i = 1
                 else:
                     i = None
+            if i is not None and len(q) > i and isinstance(q[i], dict) and rv.get('agg') == 'array' and \
+                    ('cidx' in q[i] or 'idx' in q[i]):
+                # element of an array literal selected by a constant index
+                fi = None
+                if 'cidx' in q[i] and not q[i].get('from_end'):
+                    fi = q[i]['cidx']
+                elif 'idx' in q[i]:
+                    io = self._origin_place(q[i]['idx'], [], depth + 1)
+                    if io['o'] == 'const' and 'int' in io['c']:
+                        fi = int(io['c']['int'])
+                if fi is not None and fi < len(rv['ops']):
+                    a = rv['ops'][fi]
+                    rest = q[i + 1:]
+                    if a.get('k') == 'const':
+                        return {'o': 'const', 'c': a, 'p': rest}
+                    return self._origin_place(a['l'], list(a['p']) + rest, depth + 1)
             if i is not None and len(q) > i and isinstance(q[i], dict) and 'f' in q[i]:
                 fi = q[i]['f']
                 ops = rv['ops']
@@ -292,3 +308,63 @@ def copy_web(body, tr, reach, seed):
                         web.add(o['l'])
                         changed = True
     return web
+
+
+def const_tuple(facts, c):
+    """Integer tuple denoted by a constant operand of aggregate type (`const T: (usize, usize) = (0, 2)`), from the
+    constant's exported initialiser; None if it cannot be read off."""
+    if not isinstance(c, dict) or 'uneval' not in c or 'promoted' in c:
+        return None
+    cb = getattr(facts, 'consts', {}).get(facts.norm(c['uneval']))
+    if cb is None:
+        return None
+    from .sym import SymEx
+    sx = SymEx(facts)
+    try:
+        outs = sx.run(cb, [])
+    except Exception:
+        return None
+    if len(outs) != 1:
+        return None
+    r = sx.deep(outs[0].st, outs[0].ret)
+    if isinstance(r, tuple) and r[0] == 'struct':
+        vals = []
+        for _, x in r[3]:
+            if isinstance(x, tuple) and x[0] == 'num' and x[1].denominator == 1:
+                vals.append(int(x[1]))
+            else:
+                return None
+        return tuple(vals)
+    return None
+
+
+def const_int(facts, c):
+    """Integer denoted by a constant operand: a literal, a named constant, or a promoted `&K`."""
+    if not isinstance(c, dict):
+        return None
+    if 'int' in c:
+        return int(c['int'])
+    if 'char' in c:
+        return int(c['char'])
+    if 'uneval' not in c:
+        return None
+    from .sym import SymEx, State
+    sx = SymEx(facts)
+    st = State()
+    try:
+        if 'promoted' in c:
+            v = sx.promoted(st, c)
+        else:
+            cb = getattr(facts, 'consts', {}).get(facts.norm(c['uneval']))
+            if cb is None:
+                return None
+            outs = sx.run(cb, [], st=st)
+            v = outs[0].ret if len(outs) == 1 else None
+        for _ in range(3):
+            if isinstance(v, tuple) and v[0] == 'ref':
+                v = sx.load(st, v)
+    except Exception:
+        return None
+    if isinstance(v, tuple) and v[0] == 'num' and v[1].denominator == 1:
+        return int(v[1])
+    return None
